@@ -147,6 +147,9 @@ static int verif_sem_post(sem_t *s)
 {
 	if (s == verif_sem_counted) {
 		POST(!verif_sem_destroyed, "a destroyed semaphore is not posted");
+#ifdef VERIF_SEM_POST_HOOK
+		VERIF_SEM_POST_HOOK();   /* unit hook: observe the module state at the moment the worker is woken */
+#endif
 		verif_sem_posts++; verif_sem_value++;
 	}
 	return 0;
